@@ -141,6 +141,8 @@ def run_real(spec):
         out, status = None, 'valueerror'
     except KeyError:
         out, status = None, 'keyerror'
+    except Exception as err:                      # anything else: reported, never fatal for the check
+        out, status = None, 'exception-' + type(err).__name__.lower()
     raw = [(ids[i], m) for i, m in RECORD if i in ids]
     return status, out, raw, list(LOGS), mol, mlist
 
@@ -330,6 +332,7 @@ def oracle(spec, mol, mlist, out, logs, raw):
                         next(iter(set(real_set) ^ set(brute_set))))))
         return errs, info
     info['placements'] = len(places)
+    info['first_not_min'] = any(mt and mt[0][0] != min(x for x, _ in mt) for _, mt in raw)
     atomsets = [set(emb.values()) for _, emb in places]
     shared = set()
     for a, b in itertools.combinations(range(len(places)), 2):
@@ -791,7 +794,7 @@ for (cid, spec, meta, status, impl, errs, info, logs, ln), sent, mo in zip(recs,
     chk.count('topo=' + meta['topo'])
     chk.count('keys=' + meta['keys'])
     chk.count('placements=%s' % (npl if npl < 6 else '6+'))
-    for name, flag in (('overlap', info.get('overlap')), ('overlap_noncontributing_atom', info.get('overlap_noncontributing')), ('spawned', info.get('spawned')), ('lost_atoms', info.get('lost')),
+    for name, flag in (('first_matched_atom_not_lowest_key', info.get('first_not_min')), ('overlap', info.get('overlap')), ('overlap_noncontributing_atom', info.get('overlap_noncontributing')), ('spawned', info.get('spawned')), ('lost_atoms', info.get('lost')),
                        ('inter_bonds', info.get('inter_bonds')), ('warn_garbage', kinds[1]), ('warn_disconnected', kinds[2]),
                        ('warn_hydrogens', kinds[4]), ('two_residue_mapping', any(m['name'] == 'PAIR' for m in spec['mappings'])),
                        ('references', any(m['refs'] for m in spec['mappings'])), ('unexpected_log', other)):
@@ -846,6 +849,8 @@ def run_with_mods(mol, mappings, to_ff, keep=KEEP):
         out, status = None, 'valueerror'
     except KeyError:
         out, status = None, 'keyerror'
+    except Exception as err:                      # anything else: reported, never fatal for the check
+        out, status = None, 'exception-' + type(err).__name__.lower()
     rawb = [(bid[i], m) for i, m in RECORD if i in bid]
     rawm = [(mid[i], m) for i, m in RECORD if i in mid]
     called = [n for t, n in MAPCALLS if t == 'modification']
